@@ -62,6 +62,14 @@ class Vdrv(object):
                                   close_fds=True, bufsize=0)
         self.buf = b""
 
+    def set_timeout(self, seconds):
+        """CPU-time limit per request (applies to the running worker and to restarts)."""
+        if seconds == self.timeout_cpu:
+            return
+        self.timeout_cpu = seconds
+        if self.p is not None:
+            self.request(["timeout", str(seconds)])
+
     def close(self):
         if self.p is not None:
             try:
@@ -196,8 +204,8 @@ class Vdrv(object):
                 "badreg": int(d["badreg"]), "regs": regs_out, "diff": diff,
                 "dump": unhx(d["dump"]).decode("latin-1"), "runout": unhx(d["runout"]).decode("latin-1")}
 
-    def walk(self, cpu, start, end, addr, data):
-        d = self.request(["walk", cpu, str(start), str(end), str(addr), hx(data)])
+    def walk(self, cpu, start, end, addr, data, texts=False):
+        d = self.request(["walk", cpu, str(start), str(end), str(addr), hx(data), "1" if texts else "0"])
         if "err" in d:
             raise RuntimeError("vdrv walk: " + d["err"])
         steps = []
@@ -205,10 +213,18 @@ class Vdrv(object):
             if ent:
                 a, _, n = ent.partition(":")
                 steps.append((int(a, 16), int(n)))
-        return steps
+        if not texts:
+            return steps
+        tx = []
+        for t in d.get("texts", "").split("\x1f"):
+            if t:
+                tx.append(unhx(t[1:]).decode("latin-1") if t[0] == "h" else t[1:])
+        while len(tx) < len(steps):
+            tx.append("")
+        return [(a, n, t) for (a, n), t in zip(steps, tx)]
 
-    def sweep(self, cpu, addr, first, count, tail, mode, maxlen):
-        d = self.request(["sweep", cpu, str(addr), str(first), str(count), hx(tail), str(mode), str(maxlen)])
+    def sweep(self, cpu, addr, first, count, tail, mode, maxlen, pos=0):
+        d = self.request(["sweep", cpu, str(addr), str(first), str(count), hx(tail), str(mode), str(maxlen), str(pos)])
         if "err" in d:
             raise RuntimeError("vdrv sweep: " + d["err"])
         hist = {}
